@@ -14,7 +14,8 @@ RULE = ('rows of InResponseTo {matching, unknown, absent} x SCD.InResponseTo {ma
         'another binding, foreign, absent} x AudienceRestrictions {none, [me], [other], [me,other], [me]+[other], [other]+[me], no Conditions} x Recipient {entity id, own endpoint, '
         'foreign} x allow_unsolicited x conv_info x valid_destination_regex {unset, matching, non-matching} x {plain, encrypted} x binding {POST, Redirect, SOAP} x {unsigned, signed}; '
         'quick: deterministic stride sample of the product plus all single-dimension deviations from the conformant row; thorough: the whole product. '
-        'Non-trivial = at least one dimension off its conformant value; distinct = distinct row.')
+        'generated (Hypothesis): the conformant row with 1-6 dimensions moved, over the same dimensions plus the value stored for the outstanding request {path, empty string, "0", blank} and '
+        'SP configured with / without an assertion-consumer endpoint for the delivering binding. Non-trivial = at least one dimension off its conformant value; distinct = distinct row.')
 ASSUMPTIONS = ['solicitation (clause 1) is judged for the browser bindings POST/Redirect only; SOAP (synchronous) rows are judged for audience and recipient only',
                'rows are unsigned with all SP signature options off, or response-signed with defaults (xmlsec1 stand-in); frozen clock',
                'a non-matching valid_destination_regex with an own-endpoint Destination is not judged (either outcome satisfies the statement)']
@@ -89,10 +90,31 @@ class Rows(object):
         return self._n
 
 
+EXTRA = [('came', ['/came/from/1', '', '0', ' ']),             # what the application stored for the outstanding request (any string, also a falsy one)
+         ('acs_cfg', ['all', 'none-for-binding'])]               # the SP has / has not an assertion-consumer endpoint configured for the delivering binding
+
+
+def generated_strategy():
+    """the conformant row with 1-6 dimensions (of the table's and the two extra ones) moved off their conformant value"""
+    from hypothesis import strategies as st
+    dims = DIMS + EXTRA
+
+    def build_row(devs):
+        r = dict((k, v[0]) for k, v in dims)
+        for i, j in devs:
+            k, vs = dims[i % len(dims)]
+            r[k] = vs[j % len(vs)]
+        return r
+    return st.lists(st.tuples(st.integers(0, len(dims) - 1), st.integers(1, 6)), min_size=2, max_size=8).map(build_row)
+
+
 def judge(row):
     """('reject', reasons) | ('accept', []) | ('unjudged', [])"""
     reasons = []
     browser = row['binding'] in ('post', 'redirect', 'artifact')
+    if browser and row.get('acs_cfg') == 'none-for-binding' and row['dest'] != 'absent':
+        if not (row['regex'] == 'match' and row['dest'] in ('own', 'own-other-binding')):
+            reasons.append('Destination is present but the SP has no endpoint for the binding and no pattern matches')
     if browser and not row['unsol']:
         if row['irt'] != 'match':
             reasons.append('InResponseTo does not identify an outstanding request')
@@ -110,7 +132,7 @@ def judge(row):
         reasons.append('Recipient is foreign although conversation info was supplied')
     if reasons:
         return 'reject', reasons
-    ok = (row['irt'] == 'match' and row['scd'] == 'match' and row['dest'] in ('own', 'absent') and row['aud'] in ('me', 'none', 'me+other-one', 'no-conditions')
+    ok = (row.get('acs_cfg', 'all') == 'all' and row['irt'] == 'match' and row['scd'] == 'match' and row['dest'] in ('own', 'absent') and row['aud'] in ('me', 'none', 'me+other-one', 'no-conditions')
           and row['rcpt'] in ('endpoint', 'entity') and row['regex'] in ('unset', 'match'))
     if ok:
         return 'accept', []
@@ -125,6 +147,8 @@ def run(row):
         row = dict(row, signed=False)
     opts = {'allow_unsolicited': row['unsol'],
             'acs': [(ACS['post'], world.POST), (ACS['redirect'], world.REDIRECT), (ACS['soap'], world.SOAP), (ACS['artifact'], world.ARTIFACT)]}
+    if row.get('acs_cfg') == 'none-for-binding':
+        opts['acs'] = [(u, bb) for u, bb in opts['acs'] if bb != BIND[row['binding']]]
     if row['signed']:
         opts.update({'want_response_signed': True})
     else:
@@ -156,7 +180,8 @@ def run(row):
         a['conditions']['audiences'] = {'me': [[spside.SP]], 'none': [], 'other': [[OTHER]], 'me+other-one': [[spside.SP, OTHER]],
                                         'me|other': [[spside.SP], [OTHER]], 'other|me': [[OTHER], [spside.SP]]}[row['aud']]
     doc = build.render(r, [a], sign_response=1 if row['signed'] else None, encrypt_for=2 if row['enc'] else None)
-    outstanding = {'id-req-1': '/came/from/1', 'id-req-2': '/came/from/2'}
+    came = row.get('came', '/came/from/1')
+    outstanding = {'id-req-1': came, 'id-req-2': '/came/from/2'}
     kw = {}
     if row['conv']:
         kw['conv_info'] = {'entity_id': spside.SP}
@@ -173,15 +198,15 @@ def run(row):
     except Exception as e:
         v = ('reject', type(e).__name__, str(e)[:160])
     want, why = judge(row)
-    dev = [k for k in CONFORMANT if row[k] != CONFORMANT[k]]
+    dev = [k for k in row if row[k] != dict(DIMS + EXTRA)[k][0]]
     if want == 'reject' and v[0] == 'accept':
-        key = {'InResponseTo': 'unsolicited', 'a bearer': 'scd-names-other-request', 'Destination': 'destination', 'an audience': 'audience', 'Recipient': 'recipient'}
+        key = {'InResponseTo': 'unsolicited', 'a bearer': 'scd-names-other-request', 'Destination is not': 'destination', 'Destination is present': 'destination-no-endpoint', 'an audience': 'audience', 'Recipient': 'recipient'}
         tag = [v2 for k2, v2 in key.items() if why[0].startswith(k2)][0]
         raise Violation('accepted-misaddressed:' + tag, 'accepted although %s; row %r' % ('; '.join(why), dict((k, row[k]) for k in dev)), detail={'why': why})
     if want == 'accept' and v[0] != 'accept':
         raise Violation('rejected-conformant', 'conformant row rejected: %s %s; row %r' % (v[1], v[2], dict((k, row[k]) for k in dev)))
     if v[0] == 'accept' and row['irt'] == 'match' and row['binding'] != 'soap' and not row['unsol']:
-        if v[1].came_from != '/came/from/1':
+        if v[1].came_from != came:
             raise Violation('came-from-wrong', 'came_from is %r for a response to id-req-1; row %r' % (v[1].came_from, dict((k, row[k]) for k in dev)))
     return '%s|%s' % (want, v[0]), bool(dev)
 
@@ -193,4 +218,5 @@ def known_match(part, row, v):
 def parts(tier):
     quick = tier != 'thorough'
     return [Part('rows', run, cases=lambda: Rows(full=not quick), exhaustive=not quick, distinct_by_construction=True,
-                 mandatory=['reject|reject', 'accept|accept'])]
+                 mandatory=['reject|reject', 'accept|accept']),
+            Part('generated', run, strategy=generated_strategy, examples=4000 if quick else 150000)]
